@@ -274,6 +274,18 @@ class Workspace(AbstractContextManager):
             omit_list=["_workspace", "_on_file"] + list(omit_list),
         )
 
+        # the colour and value maps are mutable and point back to their type:
+        # a type created for the copy gets its own
+        value_map = entity_type_kwargs.get("value_map")
+        if isinstance(value_map, data.ReferenceValueMap):
+            entity_type_kwargs["value_map"] = value_map.map.copy()
+        color_map = entity_type_kwargs.get("color_map")
+        if isinstance(color_map, data.color_map.ColorMap):
+            entity_type_kwargs["color_map"] = {
+                "name": color_map.name,
+                "values": color_map.values.T,
+            }
+
         # overwrite kwargs
         entity_kwargs.update(
             (k, kwargs[k]) for k in entity_kwargs.keys() & kwargs.keys()
